@@ -597,6 +597,24 @@ pub fn directed_inputs(rng: &mut Rng, thorough: bool) -> Vec<(String, Vec<u8>)> 
         d.truncate(BLOCK - 1);
         v.push((format!("many-offset-codes {}..={} x{}", codes_lo, codes_hi, per), d));
     }
+    // a block whose literals add a value ABOVE the largest value of the previous block's table, with otherwise the same
+    // skewed statistics (the reuse decision compares two code lists of different lengths)
+    for &(n, extra) in &[(30usize, 100usize), (60, 40), (16, 300), (200, 64)] {
+        let mut weights: Vec<u8> = vec![];
+        for v in 0..n {
+            for _ in 0..(v + 1) {
+                weights.push(v as u8);
+            }
+        }
+        let mut d: Vec<u8> = (0..BLOCK).map(|_| weights[rng.below(weights.len() as u64) as usize]).collect();
+        let mut second: Vec<u8> = (0..6000).map(|_| weights[rng.below(weights.len() as u64) as usize]).collect();
+        for k in 0..extra {
+            let pos = (k * 53) % second.len();
+            second[pos] = n as u8;
+        }
+        d.extend_from_slice(&second);
+        v.push((format!("next-block-adds-value-above-max n={} extra={}", n, extra), d));
+    }
     // exact SEQUENCE counts around the boundaries of the count field (127/128, 255/256): `reps` copies of one 8-byte
     // pattern separated by distinct 6-byte separators give reps-1 sequences with the built-in matcher
     for &reps in &[127usize, 128, 129, 130, 256, 257] {
@@ -926,7 +944,7 @@ pub fn run(opts: &Opts) -> Run {
     for (k, (w, sp)) in [(1024u64, 4096usize), (0, BLOCK), (5000, 70_000), (65_536, BLOCK)].into_iter().enumerate() {
         let t = gen::data(&mut rng, "text", (sp * 2 + 900).min(150_000));
         for lvl in [Lvl::U, Lvl::F] {
-            let case = super::c16::Case { label: format!("user matcher window_size {} with {} byte spaces", w, sp), w, spaces: vec![sp], plan: super::c16::plan(super::c16::Mode::Greedy), data: t.clone(), lvl, frags: frag_scripts(&mut rng, t.len()) };
+            let case = super::c16::Case { pre_reset_window: None, label: format!("user matcher window_size {} with {} byte spaces", w, sp), w, spaces: vec![sp], plan: super::c16::plan(super::c16::Mode::Greedy), data: t.clone(), lvl, frags: frag_scripts(&mut rng, t.len()) };
             super::c16::run_case(&mut run, &case, opts.seed + k as u64, ctx.spec_limit.min(12_000), &mut ctx.spec_budget, &["C02"], &["C15"]);
             run.stat("user_matcher_small_window_cases", 1);
         }
